@@ -325,4 +325,68 @@ inline void publisher_mt(const vf::opts &o, vf::report &R, vf::team &T, uint64_t
         if (R.samples.size() < 3 && X.nsubs >= 2) R.sample(witness());
     }
 }
+// ---------------------------------------------------------------------------------------------
+// two threads publish concurrently on one publisher (the queue is mutex protected), one or two early all_values subscribers read.
+// Oracle: every subscriber receives every id of both publishers exactly once, each publisher's ids in its own order, positions
+// strictly increasing; the thread finishing last closes.
+struct pmt2_round {
+    std::unique_ptr<pub_t> pub;
+    pmt_sub subs[2]; int nsubs = 1;
+    int n[2] = {};
+    std::atomic<int> done{0};
+};
+inline void publisher_two_publishers(const vf::opts &o, vf::report &R, vf::team &T, uint64_t rounds) {
+    static const int sites_pub[] = {pub_push_unlocked, aw_chain_pre, pub_push_unlocked};
+    static const int sites_sub[] = {coaw_suspend, sync_pre_sub, sync_pre_wait, pub_position};
+    vf::rng master(vf::mix(o.seed, 0x216));
+    for (uint64_t rn = 0; rn < rounds && R.nviol() < 5; rn++) {
+        uint64_t rseed = master.next();
+        vf::rng r(rseed);
+        auto Xp = std::make_unique<pmt2_round>();
+        pmt2_round &X = *Xp;
+        X.pub = std::make_unique<pub_t>();
+        X.nsubs = T.n >= 4 ? 1 + (int)r.below(2) : 1;
+        X.n[0] = 1 + (int)r.below(8); X.n[1] = 1 + (int)r.below(8);
+        for (int i = 0; i < X.nsubs; i++) { X.subs[i].mode = 0; X.subs[i].style = (int)r.below(2); X.subs[i].s = std::make_unique<sub_t>(*X.pub); }
+        std::string desc = "publishers " + std::to_string(X.n[0]) + "+" + std::to_string(X.n[1]) + " subs=" + std::to_string(X.nsubs);
+        std::string plan = T.plan_by([&](int tid) -> std::pair<const int *, int> { return tid < 2 ? std::make_pair(sites_pub, 3) : std::make_pair(sites_sub, 4); }, r, 2 + X.nsubs);
+        vf::set_crash_ctx(R.prop.c_str(), "publisher_two_publishers", o.seed, rn, (desc + "; " + plan).c_str());
+        T.round([&](int tid) {
+            vf::start_offset(rseed, tid);
+            if (tid < 2) {
+                for (int k = 1; k <= X.n[tid]; k++) X.pub->publish((tid + 1) * 1000 + k);
+                if (X.done.fetch_add(1, std::memory_order_acq_rel) == 1) X.pub->close(); // the publisher finishing last closes
+            } else if (tid < 2 + X.nsubs) {
+                pmt_sub &S = X.subs[tid - 2];
+                if (S.style == 0) pmt_reader(S).detach();
+                else { for (;;) { bool b = S.s->next(); if (!b) break; S.got.push_back(S.s->value()); S.poss.push_back((long)S.s->position()); if (S.got.size() > 300) break; } S.finished.store(1, std::memory_order_relaxed); }
+            }
+        });
+        R.cases++;
+        std::string err;
+        for (int i = 0; i < X.nsubs && err.empty(); i++) {
+            pmt_sub &S = X.subs[i];
+            if (!S.finished.load()) { err = "subscriber still waiting after close"; break; }
+            int last[2] = {0, 0}; size_t cnt[2] = {0, 0};
+            for (int v : S.got) {
+                int p = v / 1000 - 1, k = v % 1000;
+                if (p < 0 || p > 1 || k < 1 || k > X.n[p]) { err = "received a value never published: " + std::to_string(v); break; }
+                if (k != last[p] + 1) { err = "publisher " + std::to_string(p) + ": value " + std::to_string(k) + " received after " + std::to_string(last[p]) + " (lost, duplicated or reordered)"; break; }
+                last[p] = k; cnt[p]++;
+            }
+            if (err.empty() && (cnt[0] != (size_t)X.n[0] || cnt[1] != (size_t)X.n[1])) err = "end-of-stream after " + std::to_string(cnt[0]) + "+" + std::to_string(cnt[1]) + " values, published " + std::to_string(X.n[0]) + "+" + std::to_string(X.n[1]);
+            for (size_t k = 1; k < S.poss.size() && err.empty(); k++) if (S.poss[k] != S.poss[k - 1] + 1) err = "positions not contiguous";
+        }
+        if (!err.empty()) {
+            std::vector<std::string> ss; for (int i = 0; i < X.nsubs; i++) ss.push_back(vf::jnums(X.subs[i].got));
+            R.violation("monitor:stream|publisher_two_publishers", err, vf::jobj().kv("round", (unsigned long long)rn).kv("seed", (unsigned long long)o.seed).kv("desc", desc).kv("stall_plan", plan).raw("received", vf::jarr(ss)).str());
+            for (int i = 0; i < 2; i++) (void)X.subs[i].s.release(); (void)X.pub.release(); (void)Xp.release(); continue;
+        }
+        R.nontrivial_cases++;
+        R.sig(desc + (T.stalls_fired_last_round() ? " S" : ""));
+        if (T.stalls_fired_last_round()) R.cls("rounds_with_stall_fired");
+        if (rn < 2) R.sample(vf::jobj().kv("round", desc).raw("received_by_first_subscriber", vf::jnums(X.subs[0].got)).str());
+    }
+}
+
 } // namespace scn
